@@ -25,8 +25,10 @@ EVAL_ENV = {"deque": deque, "Counter": Counter, "defaultdict": defaultdict, "arr
 # ------------------------------------------------------------------------------------------------ generation
 def leaf(hashable_only=False):
     s = st.text(st.one_of(st.sampled_from("abcxyz 01"), st.sampled_from(["'", '"', "\n", "\\", "\t"]), st.sampled_from(GC.WIDE[:5]), st.sampled_from(GC.ZERO[:2])), max_size=12)
+    # long strings whose cell width differs from their length (combining marks, wide characters): more than 64 characters
+    longs = st.builds(lambda unit, n: ["str", (unit * 60)[:n]], st.sampled_from(["e\u0301", "a" + GC.ZERO[0], GC.WIDE[0], "ab", "\u0e01\u0e34", "x" + GC.ZERO[1] + GC.ZERO[0]]), st.integers(65, 110))
     return st.one_of(
-        s.map(lambda x: ["str", x]),
+        s.map(lambda x: ["str", x]), s.map(lambda x: ["str", x]), s.map(lambda x: ["str", x]), longs,
         st.binary(max_size=6).map(lambda b: ["bytes", b.hex()]),
         st.integers(-10**6, 10**12).map(lambda n: ["int", n]),
         st.integers(0, 9).map(lambda n: ["int", n]),
@@ -266,7 +268,8 @@ class RoundTrip(Part):
     budget = {"quick": (8, 3000), "thorough": (16, 25000)}
 
     def strategy(self, tier):
-        width = st.one_of(st.integers(1, 30), st.integers(1, 30), st.integers(1, 200))
+        # ["rel", d]: the cell width of repr(value) plus d - the boundary between "fits on one line" and "must be expanded"
+        width = st.one_of(st.integers(1, 30), st.integers(1, 30), st.integers(1, 200), st.integers(-3, 3).map(lambda d: ["rel", d]), st.integers(-3, 3).map(lambda d: ["rel", d]))
         return st.builds(lambda v, w, ind, ea: {"v": v, "max_width": w, "indent": ind, "expand_all": ea}, value(), width, st.integers(1, 8), st.sampled_from([False, False, False, True]))
 
     def check(self, spec, ctx):
@@ -274,6 +277,9 @@ class RoundTrip(Part):
 
         v = build(spec["v"])
         mw, ind, ea = spec["max_width"], spec["indent"], spec["expand_all"]
+        if isinstance(mw, list):
+            mw = max(1, OC.width(repr(v)) + mw[1])
+            ctx.cls("width-at-the-fit-boundary")
         out = sut(pretty_repr, v, max_width=mw, indent_size=ind, expand_all=ea)
         ks, info = kinds(spec["v"])
         desc = "pretty_repr(%r, max_width=%d, indent_size=%d, expand_all=%r) ->\n%s" % (v, mw, ind, ea, out)
@@ -381,7 +387,8 @@ class Abbrev(Part):
 class Rerender(Part):
     name = "rerender"
     rule = ("the Pretty renderable of a list/dict value (short leaves, depth <= 3) printed and measured on a console, the value then edited in place (append / set key / "
-            "edit of a nested container), and the same Pretty printed again at another width: every printed text evaluates to the value as it is at that moment; "
+            "edit of a nested container), and the same Pretty printed again at another width; optionally an earlier pretty_repr of the value was aborted by a RecursionError (a 3000-level "
+            "chain that is removed again): every printed text evaluates to the value as it is at that moment; "
             "non-trivial = the edit changed a nested container and the second text spans several lines")
     budget = {"quick": (8, 600), "thorough": (16, 6000)}
 
@@ -398,8 +405,9 @@ class Rerender(Part):
 
         root = st.one_of(st.lists(val(1), max_size=4).map(lambda k: ["list", k]), st.lists(st.tuples(lf, val(1)).map(list), max_size=3).map(lambda p: ["dict", p]))
         edit = st.tuples(st.sampled_from(["root", "nested"]), val(1)).map(list)
-        return st.builds(lambda v, w1, w2, edits, measure, kw: {"v": v, "w1": w1, "w2": w2, "edits": edits, "measure": measure, "kw": kw}, root, st.integers(40, 120), st.integers(40, 120),
-                         st.lists(edit, min_size=1, max_size=3), st.booleans(), st.sampled_from([{}, {}, {"expand_all": True}, {"indent_size": 2}, {"max_length": None, "margin": 3}]))
+        return st.builds(lambda v, w1, w2, edits, measure, kw, ab: {"v": v, "w1": w1, "w2": w2, "edits": edits, "measure": measure, "kw": kw, "abort": ab}, root, st.integers(40, 120), st.integers(40, 120),
+                         st.lists(edit, min_size=1, max_size=3), st.booleans(), st.sampled_from([{}, {}, {"expand_all": True}, {"indent_size": 2}, {"max_length": None, "margin": 3}]),
+                         st.sampled_from([False, False, False, True]))
 
     def check(self, spec, ctx):
         import io
@@ -408,6 +416,31 @@ class Rerender(Part):
         from rich.measure import Measurement
 
         v = build(spec["v"])
+        if spec.get("abort"):
+            # an earlier attempt to print the value failed half-way (it was nested too deeply then: RecursionError); the offending part is removed afterwards
+            from rich.pretty import pretty_repr
+
+            deep = cur = []
+            for _ in range(3000):
+                nxt = []
+                cur.append(nxt)
+                cur = nxt
+            if isinstance(v, dict):
+                v["deep"] = deep
+            else:
+                v.append(deep)
+            try:
+                pretty_repr(v)
+            except RecursionError:
+                ctx.cls("earlier-traversal-aborted")
+            except Exception as e:  # noqa
+                from ..core import SutError
+
+                raise SutError(e)
+            if isinstance(v, dict):
+                del v["deep"]
+            else:
+                v.pop()
         pretty = sut(Pretty, v, **spec["kw"])
 
         def show(w, when):
